@@ -54,6 +54,8 @@ pub enum Op {
     DropArbiter(usize),
     SystemStop(i32),
     BlockOn(u8, i32),
+    /// a burst of n plain tasks sent back to back to one arbiter
+    Burst(usize, u8),
     Nop,
 }
 
@@ -657,6 +659,13 @@ fn exec_op(sim: &Arc<Sim>, op: &Op, runner: Option<&actix_rt::SystemRunner>) {
             }
         }
         Op::SystemStop(code) => do_system_stop(sim, *code),
+        Op::Burst(n, count) => {
+            if let Some(a) = pick(*n) {
+                for _ in 0..*count {
+                    do_spawn(sim, a, TaskKind::Fut, true);
+                }
+            }
+        }
         Op::BlockOn(k, val) => {
             if let Some(r) = runner {
                 let k = *k;
@@ -982,6 +991,13 @@ fn gen_ops(rng: &mut Rng, n: usize, main: bool, c10: bool) -> Vec<Op> {
                 }
             }
             11 if main => Op::BlockOn(rng.range(0, 2) as u8, rng.range(0, 5) as i32),
+            12 => {
+                if rng.chance(1, 3) {
+                    Op::Burst(rng.usize_below(3), *rng.pick(&[5u8, 17, 40]))
+                } else {
+                    Op::Nop
+                }
+            }
             _ => Op::Nop,
         })
         .collect()
